@@ -1,5 +1,5 @@
 # data for mkmanifest.py
-HOOK_COMMITS = ['fba6b35']
+HOOK_COMMITS = ['fba6b35', '69c1f84']
 T = 'Coq proof over Gallina model + differential correspondence + oracle'
 Q = 'theorems on exact rationals, execution on binary32'
 CLAIMED = {
@@ -7,6 +7,7 @@ CLAIMED = {
     'C03': (T, 'reader represented by the model read_xml, tied by byte-level correspondence; custom DTD entities outside the model', None),
     'C05': (T, 'idempotence of blank-line trimming, escaping and read-back proved; attribute re-sort / class re-split identities covered by correspondence only (partial)', None),
     'C09': (T, Q, None),
+    'C19': (T, Q + '; text fidelity proved for text_string / lines / escaping, placement from the generated alignment table', None),
     'C11': (T, Q, None),
     'C12': (T, Q, None),
 }
